@@ -39,7 +39,7 @@ from vgi_rpc.http.server._introspect import INTROSPECT_ENDPOINT, TokenIdentity
 
 PROPERTY = "C36"
 LEVEL = "fault_enumeration"
-QUICK_RUNS = 3000
+QUICK_RUNS = 2000
 THOROUGH_RUNS = 300_000
 QUICK_BUDGET_S = 90
 THOROUGH_BUDGET_S = 1500
